@@ -185,9 +185,9 @@ func (c *SimConn) Read(p []byte) (int, error) {
 			if c.In.EOFWithData && c.In.finDeliv && len(c.In.delivered) == 0 {
 				err = io.EOF
 			}
-			c.op("read", n)
 			c.WireReads++
 			s.Mu.Unlock()
+			c.op("read", n)
 			return n, err
 		}
 		if c.In.finDeliv {
@@ -253,8 +253,8 @@ func (c *SimConn) Write(p []byte) (int, error) {
 		if c.Peer.closed {
 			// kernel accepts the bytes, the peer answers RST
 			c.gotRST = true
-			c.op("write", len(p)-written)
 			s.Mu.Unlock()
+			c.op("write", len(p)-written)
 			return len(p), nil
 		}
 		if len(p) == written {
@@ -279,7 +279,9 @@ func (c *SimConn) Write(p []byte) (int, error) {
 				out.inflight = append(out.inflight, seg{data: chunk})
 			}
 			written += space
+			s.Mu.Unlock()
 			c.op("write", space)
+			s.Mu.Lock()
 			if written == len(p) {
 				s.Mu.Unlock()
 				s.poke()
@@ -336,8 +338,8 @@ func (c *SimConn) Close() error {
 	}
 	c.In.delivered = nil
 	c.In.inflight = nil
-	c.op("close", 0)
 	s.Mu.Unlock()
+	c.op("close", 0)
 	c.n.ep.Logf("close %s", c.Name)
 	s.poke()
 	return nil
@@ -386,7 +388,6 @@ func (c *SimConn) SetReadDeadline(t time.Time) error {
 	}
 	c.rdl = t
 	c.rearm(c.rw, t)
-	c.op("rdl", 0)
 	return nil
 }
 
@@ -527,6 +528,7 @@ func (n *Net) Enabled(add func(Event)) {
 		key string
 		w   int
 		f   func()
+		u   bool
 	}
 	var cs []cand
 	for _, c := range conns {
@@ -535,18 +537,18 @@ func (n *Net) Enabled(add func(Event)) {
 			in := c.In
 			switch {
 			case c.closed:
-				cs = append(cs, cand{"wake-closed " + c.Name, 10, func() { s.Release(w.task) }})
+				cs = append(cs, cand{"wake-closed " + c.Name, 10, func() { s.Release(w.task) }, true})
 			case in.rst:
-				cs = append(cs, cand{"wake-rst " + c.Name, 10, func() { s.Release(w.task) }})
+				cs = append(cs, cand{"wake-rst " + c.Name, 10, func() { s.Release(w.task) }, true})
 			default:
 				if w.timedOut {
 					cs = append(cs, cand{"rtimeout " + c.Name, 10, func() {
 						n.ep.Sig("rtimeout")
 						s.Release(w.task)
-					}})
+					}, true})
 				}
 				if rl := in.readyLen(now); rl > 0 {
-					cs = append(cs, cand{"deliver " + in.Name, 30, func() { n.deliver(c, w) }})
+					cs = append(cs, cand{"deliver " + in.Name, 30, func() { n.deliver(c, w) }, false})
 				} else if in.inflightLen() == 0 && in.fin && !in.finDeliv {
 					cs = append(cs, cand{"fin " + in.Name, 10, func() {
 						s.Mu.Lock()
@@ -554,7 +556,7 @@ func (n *Net) Enabled(add func(Event)) {
 						s.Mu.Unlock()
 						n.ep.Sig("fin")
 						s.Release(w.task)
-					}})
+					}, false})
 				}
 			}
 		}
@@ -562,15 +564,15 @@ func (n *Net) Enabled(add func(Event)) {
 			out := c.Out
 			switch {
 			case c.closed, out.rst, w.timedOut:
-				cs = append(cs, cand{"wake-writer " + c.Name, 10, func() { s.Release(w.task) }})
+				cs = append(cs, cand{"wake-writer " + c.Name, 10, func() { s.Release(w.task) }, true})
 			case out.Cap > 0 && out.inflightLen() < out.Cap:
-				cs = append(cs, cand{"wake-writer " + c.Name, 10, func() { s.Release(w.task) }})
+				cs = append(cs, cand{"wake-writer " + c.Name, 10, func() { s.Release(w.task) }, true})
 			}
 		}
 	}
 	s.Mu.Unlock()
 	for _, c := range cs {
-		add(Event{Key: c.key, Weight: c.w, Apply: c.f})
+		add(Event{Key: c.key, Weight: c.w, Apply: c.f, Urgent: c.u})
 	}
 }
 
